@@ -17,6 +17,7 @@ CHOICES = {
     'empty_constraints': ('element', 'selfclosed', 'missing'),   # when there are no constraints
     'extra_sections': (False, True),
     'indent': (True, False),
+    'group_child_flag': (None, 'true', 'false'),   # mandatory attribute on children of or/alt (ignored by FeatureIDE)
 }
 DEFAULT = {k: v[0] for k, v in CHOICES.items()}
 
@@ -88,6 +89,8 @@ def emit(model, ch):
             pairs.append(('mandatory', 'false'))
         elif parent_kind == 'root':
             pairs.append(('mandatory', 'true'))
+        elif parent_kind == 'grouped' and ch['group_child_flag']:
+            pairs.append(('mandatory', ch['group_child_flag']))
         if not rels and not ch['graphics'] and not ch['description']:
             w(depth, '<%s%s/>' % (tag, attrs(pairs)))
             return
